@@ -38,14 +38,11 @@ Fixpoint update_nth {A} (n : nat) (f : A -> A) (l : list A) : list A :=
 
 Definition snoc_prop (ps : props) (p : property) : props := papp ps (PCons p PNil).
 
-(* Options [extra] may be appended to an enum with options [opts] - always when the enum has
-   options; to an enum WITHOUT options unless the first new option ends in UNSPECIFIED: that
-   option would be the enum's first and a first option ending in UNSPECIFIED is taken as the
-   zero value, replacing the implicit <PREFIX>UNSPECIFIED (known finding, exactly this class:
-   C13_append_to_empty_enum_refuted). *)
-Definition unspec (o : str) : bool := has_suffix (b "UNSPECIFIED") o.
-Definition enum_append_ok (opts extra : list str) : Prop :=
-  opts <> [] \/ match extra with [] => True | o :: _ => unspec o = false end.
+(* Options may be appended to any enum, whatever they are called: after fix a65e1f2 only a first
+   option that spells the zero value (UNSPECIFIED / <PREFIX>UNSPECIFIED) is value 0, so an option
+   appended to an enum without options never replaces the implicit <PREFIX>UNSPECIFIED by a value
+   of another name (before the fix `enum Status {}` + `option OLD_UNSPECIFIED` renamed value 0:
+   regression theorems C13_fixed_append_to_empty_enum / _nested_enum). *)
 
 (* the edit itself: the option goes to the end, whatever it is called *)
 Definition enum_snoc (e : enum) (o : str) : enum := mkEnum (e_name e) (e_prefix e) (e_opts e ++ [o]).
@@ -100,58 +97,6 @@ Fixpoint apply_at (path : list step) (a : action) (ps : props) (subs : nesteds) 
   end.
 
 Definition apply_props (path : list step) (a : action) (ps : props) : props := fst (apply_at path a ps NNil).
-
-(* When an append at an address is one of the edits C13_full speaks about: everything except an
-   option ending in UNSPECIFIED appended to an enum without options (enum_append_ok), wherever
-   the address leads.  Same traversal as [apply_at]. *)
-Fixpoint field_at_ok (P : props -> Prop) (E : enum -> Prop) (f : field) {struct f} : Prop :=
-  match f with
-  | FObjInline _ ps | FOneofInline _ ps => P ps
-  | FEnumInline e => E e
-  | FArray it | FMap it => field_at_ok P E it
-  | _ => True
-  end.
-Definition nested_at_ok (P : props -> nesteds -> Prop) (E : enum -> Prop) (n : nested) : Prop :=
-  match n with NObject _ ps subs | NOneof _ ps subs => P ps subs | NEnum e => E e end.
-Fixpoint prop_at (i : nat) (Q : field -> Prop) (ps : props) : Prop :=
-  match ps, i with
-  | PNil, _ => True
-  | PCons (Property _ _ _ f) _, O => Q f
-  | PCons _ r, S k => prop_at k Q r
-  end.
-Fixpoint nested_at (k : nat) (Q : nested -> Prop) (ns : nesteds) : Prop :=
-  match ns, k with
-  | NNil, _ => True
-  | NCons n _, O => Q n
-  | NCons _ r, S j => nested_at j Q r
-  end.
-Fixpoint at_ok (path : list step) (a : action) (ps : props) (subs : nesteds) {struct path} : Prop :=
-  let enum_ok rest := fun e => match rest, a with [], AOption o => enum_append_ok (e_opts e) [o] | _, _ => True end in
-  match path with
-  | [] => True
-  | SInline i :: rest => prop_at i (field_at_ok (fun q => at_ok rest a q NNil) (enum_ok rest)) ps
-  | SNested k :: rest => nested_at k (nested_at_ok (at_ok rest a) (enum_ok rest)) subs
-  end.
-
-(* the same for an edit of a root element *)
-Definition nth_ok {A} (k : nat) (Q : A -> Prop) (l : list A) : Prop :=
-  match nth_error l k with Some x => Q x | None => True end.
-Definition element_edit_ok (e : edit) (el : element) : Prop :=
-  match e, el with
-  | EAppendOption _ _ o, EEnum en => enum_append_ok (e_opts en) [o]
-  | EAppendIn _ _ AtDecl path a, EObject _ ps subs | EAppendIn _ _ AtDecl path a, EOneof _ ps subs => at_ok path a ps subs
-  | EAppendIn _ _ (AtRequest m) path a, EService s => nth_ok m (fun x => at_ok path a (m_request x) NNil) (sv_methods s)
-  | EAppendIn _ _ (AtResponse m) path a, EService s =>
-      nth_ok m (fun x => match m_response x with Some r => at_ok path a r NNil | None => True end) (sv_methods s)
-  | EAppendIn _ _ (AtTopicMsg reply k) path a, ETopic t =>
-      let one := fun x => at_ok path a (tm_fields x) NNil in
-      match t with
-      | TPublish _ msgs => nth_ok k one msgs
-      | TReqRes _ rq rp => if reply then nth_ok k one rp else nth_ok k one rq
-      | TUpsert _ _ m | TEvent _ _ m => one m
-      end
-  | _, _ => True
-  end.
 
 Definition edit_element (e : edit) (el : element) : element :=
   match e, el with
@@ -301,14 +246,13 @@ Definition files_ext_b (D D' : list dfile) : bool := sub_list_b file_ext_b D D'.
 (* What any sequence of C13 edits does to a source file, as a relation: properties appended
    to objects / oneofs / requests / responses / topic messages and to the inline objects /
    oneofs inside them (to any depth, also through arrays and maps) and to the nested
-   declarations of objects / oneofs, options appended to enums - declared, nested or inline;
-   [enum_append_ok]: not a first option ending in UNSPECIFIED to an enum without options -, nested declarations appended to objects / oneofs, declarations appended to the
+   declarations of objects / oneofs, options appended to enums - declared, nested or inline; nested declarations appended to objects / oneofs, declarations appended to the
    file. *)
 Inductive field_ext : field -> field -> Prop :=
 | fe_refl : forall f, field_ext f f
 | fe_obj : forall nm ps ps', props_ext ps ps' -> field_ext (FObjInline nm ps) (FObjInline nm ps')
 | fe_oneof : forall nm ps ps', props_ext ps ps' -> field_ext (FOneofInline nm ps) (FOneofInline nm ps')
-| fe_enum : forall nm pfx opts extra, enum_append_ok opts extra ->
+| fe_enum : forall nm pfx opts extra,
     field_ext (FEnumInline (mkEnum nm pfx opts)) (FEnumInline (mkEnum nm pfx (opts ++ extra)))
 | fe_array : forall it it', field_ext it it' -> field_ext (FArray it) (FArray it')
 | fe_map : forall it it', field_ext it it' -> field_ext (FMap it) (FMap it')
@@ -331,7 +275,7 @@ Inductive nested_ext : nested -> nested -> Prop :=
     nested_ext (NObject nm ps subs) (NObject nm ps' subs')
 | ne_oneof : forall nm ps ps' subs subs', props_ext ps ps' -> nesteds_ext subs subs' ->
     nested_ext (NOneof nm ps subs) (NOneof nm ps' subs')
-| ne_enum : forall nm pfx opts extra, enum_append_ok opts extra ->
+| ne_enum : forall nm pfx opts extra,
     nested_ext (NEnum (mkEnum nm pfx opts)) (NEnum (mkEnum nm pfx (opts ++ extra)))
 with nesteds_ext : nesteds -> nesteds -> Prop :=
 | nn_nil : forall extra, nesteds_ext NNil extra
@@ -366,7 +310,7 @@ Inductive element_ext : element -> element -> Prop :=
 | ee_oneof : forall nm ps ps' subs subs', props_ext ps ps' -> nesteds_ext subs subs' ->
     element_ext (EOneof nm ps subs) (EOneof nm ps' subs')
 | ee_enum_same : forall en, element_ext (EEnum en) (EEnum en)
-| ee_enum : forall nm pfx opts extra, enum_append_ok opts extra ->
+| ee_enum : forall nm pfx opts extra,
     element_ext (EEnum (mkEnum nm pfx opts)) (EEnum (mkEnum nm pfx (opts ++ extra)))
 | ee_service : forall nm base ms ms', Forall2 method_ext ms ms' ->
     element_ext (EService (mkService nm base ms)) (EService (mkService nm base ms'))
